@@ -41,7 +41,7 @@ ASSUMPTIONS = [
     "member names are unique inside one class body (re-binding inside a body is C01's subject); frozen=True is not generated",
     "the generated module is a single file loaded with griffe.load(name, search_paths=[dir], allow_inspection=False)",
 ]
-BUDGET_S = {"quick": 100.0, "thorough": 1500.0}
+BUDGET_S = {"quick": 85.0, "thorough": 1500.0}
 
 _TMP_BASE: Path | None = None
 _counter = itertools.count()
@@ -90,10 +90,26 @@ def griffe_params(parameters) -> list[tuple[str, str, bool]]:
 
 
 def fmt(params) -> str:
+    """inspect-like rendering of [(name, kind, required)]."""
     parts = []
-    for n, k, req in params:
-        mark = {"positional_only": "/", "keyword_only": "*", "var_positional": "*args:", "var_keyword": "**kw:"}.get(k, "")
-        parts.append(f"{mark}{n}{'' if req or k in VARIADIC else '=…'}")
+    kinds = [k for _, k, _ in params]
+    star = False
+    for i, (n, k, req) in enumerate(params):
+        d = "" if req or k in VARIADIC else "=…"
+        if k == "var_positional":
+            parts.append(f"*{n}")
+            star = True
+        elif k == "var_keyword":
+            parts.append(f"**{n}")
+        elif k == "keyword_only":
+            if not star:
+                parts.append("*")
+                star = True
+            parts.append(f"{n}{d}")
+        else:
+            parts.append(f"{n}{d}")
+            if k == "positional_only" and (i + 1 == len(kinds) or kinds[i + 1] != "positional_only"):
+                parts.append("/")
     return "(" + ", ".join(parts) + ")"
 
 
@@ -264,6 +280,14 @@ def run_shard(ctx) -> None:
         return (code if nt else None), ["accepted", *labels], {"module": code}
 
     try:
-        ctx.run_hypothesis(_cases(ctx), check, ctx.scale(700, 12000), describe=describe, salt="dc")
+        # in chunks: a run that is out of budget stops drawing instead of generating (and skipping) the remaining examples;
+        # the first chunk uses the salt of strategy() so that the shrinker replays it exactly
+        total, done, k = ctx.scale(2000, 40000), 0, 0
+        strat = _cases(ctx)
+        while done < total and not ctx.out_of_budget():
+            n = min(500, total - done)
+            ctx.run_hypothesis(strat, check, n, describe=describe, salt="dc" + (str(k) if k else ""))
+            done += n
+            k += 1
     finally:
         _TMP_BASE = None
